@@ -81,7 +81,8 @@ RLCatAll(ds) == IF ds = << >> THEN << >> ELSE RLCat(Run(ds[1]), RLCatAll(Tail(ds
 (* held (AnchoredSlices the environment holds: id -> run list).            *)
 (***************************************************************************)
 \* kin: the object is a clone, or has been cloned, since it was last emptied (C20: the two sides stay valid independently)
-EmptyObj == [buf |-> << >>, pend |-> {}, lens |-> << >>, kin |-> FALSE]
+\* seen: how many leading bytes of buf were read through the consumer side (and matched) at the last observation
+EmptyObj == [buf |-> << >>, pend |-> {}, lens |-> << >>, kin |-> FALSE, seen |-> 0]
 EmptyWorld == [objs |-> << >>, held |-> << >>]
 
 Restrict(f, S) == [x \in S |-> f[x]]
@@ -137,5 +138,6 @@ ExpectedRet(ob, e) ==
     [] OTHER -> PMin(e.n, StableBytes(ob))
 Consume(w, e) ==
   IF e.skip = 1 THEN w
-  ELSE [w EXCEPT !.objs = Put(@, e.o, [w.objs[e.o] EXCEPT !.buf = RLDrop(@, RemovedBytes(w.objs[e.o], e))])]
+  ELSE LET k == RemovedBytes(w.objs[e.o], e) IN
+       [w EXCEPT !.objs = Put(@, e.o, [w.objs[e.o] EXCEPT !.buf = RLDrop(@, k), !.seen = IF @ > k THEN @ - k ELSE 0])]
 =============================================================================
